@@ -135,6 +135,17 @@ def enumerations(tier, shard, nshards):
 
     yield ("large BGZF files whose records end exactly on 64 KiB boundaries (4400 x 128 B unstable, 700 x 256 B stable)", gen(), True)
 
+    def empty():
+        # "any number of records" includes none: an empty GAF converts to an empty GAF (plain, and BGZF with the EOF block only)
+        g = conv.fixed_graph()
+        gfa = gen_graph.gfa_text(g, with_seq=True, order_seed=5)
+        for direction in ("u2s2u", "s2u2s"):
+            for via in ("api", "cli", "cli_stdout"):
+                yield {"gfa": gfa, "gaf": [], "dir": direction, "via": via}
+            yield {"gfa": gfa, "gaf": [], "dir": direction, "bgzf": {"cuts": [], "empty": False}}
+
+    yield ("a GAF without any record, both directions, plain and BGZF", empty(), True)
+
 
 def enumerations_small(tier, shard, nshards):
     def gen():
